@@ -427,6 +427,26 @@ def shape_of(pid, case):
     return case.op.split(" ")[0] + "/" + out_class
 
 
+def distribution(pid, cases):
+    """What the generated inputs looked like on this run: ops, outcome shapes, sizes, verdicts."""
+    import collections
+    if not cases:
+        return {}
+    ops = collections.Counter(c.op.split(" ")[0] for c in cases)
+    shapes = collections.Counter(shape_of(pid, c) for c in cases)
+    lens = sorted(len(c.op) for c in cases)
+    verdict = lambda v: re.sub(r"[:(@].*", "", v)[:40] if v else "-"
+    return {
+        "ops": dict(ops.most_common(20)),
+        "outcome_shapes_top": [[k[:90], n] for k, n in shapes.most_common(15)],
+        "outcome_shapes_seen_once": sum(1 for n in shapes.values() if n == 1),
+        "op_line_bytes": {"min": lens[0], "median": lens[len(lens) // 2], "max": lens[-1]},
+        "impl_oracle_verdicts": dict(collections.Counter(verdict(c.pver) for c in cases).most_common(10)),
+        "spec_oracle_verdicts": dict(collections.Counter(("=expected" if c.sver.startswith("=") else verdict(c.sver))
+                                                          for c in cases).most_common(10)),
+    }
+
+
 # ---------------------------------------------------------------------------------------------
 
 def load_known():
@@ -684,6 +704,7 @@ def decide(pid, cfg, args, workdir, t_start):
             "traces_validated_against_impl": len(cases),
             "samples": samples,
             "generator": gen_stats,
+            "distribution": distribution(pid, cases),
             "search": search_info,
             "notes": notes,
         },
